@@ -56,6 +56,8 @@ def ext_handler(dem, on_call=None):
         base = d.split('(')[0].replace('gm2calc::', '')
         cname = name.replace('_ZNK', '_ZN')
         if isinstance(rt, llir.FloatT):
+            if any(isinstance(x, float) and (x != x or x in (float('inf'), -float('inf'))) for x in args):
+                return float('nan')
             scal = [zr(x) for x in args if not isinstance(x, Ptr)]
             kind = 'uf:%s%s' % (base, ''.join('#%d.%s' % (k[1], k[2]) for k in key_args if k))
             return ex.leaf(st, kind, scal)
